@@ -3,6 +3,7 @@ package parser
 import (
 	"bytes"
 
+	"github.com/cedar-policy/cedar-go/types"
 	"github.com/cedar-policy/cedar-go/x/exp/ast"
 )
 
@@ -169,6 +170,15 @@ func (n primaryPrecedenceNode) precedenceLevel() nodePrecedenceLevel {
 type NodeValue struct {
 	ast.NodeValue
 	primaryPrecedenceNode
+}
+
+// A negative long literal is written with a leading minus sign, which binds like a unary operator:
+// as the receiver of a member access it needs parentheses ((-5).a, not -5.a).
+func (n NodeValue) precedenceLevel() nodePrecedenceLevel {
+	if l, ok := n.Value.(types.Long); ok && l < 0 {
+		return unaryPrecedence
+	}
+	return primaryPrecedence
 }
 
 type NodeTypeRecord struct {
